@@ -70,11 +70,25 @@ def rec_status(rec):
     return "BLOCK"
 
 
-def rec_payload(rec):
+def norm_ur(l):
+    """the range value of a row that is not ranged is not problem data (QSget_ranged_rows reports what an earlier
+    'R' life of the row left in rangeval; a copy reports 0): compare it as 0"""
+    if l and l[0] == "UR" and len(l) > 4 and l[2] != "R":
+        return l[:4] + ["0"] + l[5:]
+    return l
+
+
+def rec_payload(rec, op=None):
     t = rec[0]
     if t[0] == "R":
-        return [x for x in t[3:] if not x.startswith("rv=")]
-    return [" ".join(l) for l in rec]
+        pl = [x for x in t[3:] if not x.startswith("rv=")]
+        if op is not None and op.split()[2:3] in (["rrows"], ["rrowslist"]):
+            # segments: | name sense rhs range cnt (ind val)*
+            for i, x in enumerate(pl):
+                if x == "|" and i + 4 < len(pl) and pl[i + 2] != "R":
+                    pl[i + 4] = "0"
+        return pl
+    return [" ".join(norm_ur(l)) for l in rec]
 
 
 def run_cases_both(cases, asan=False, jobs=16, per_case_timeout=60):
@@ -154,7 +168,7 @@ def compare_case(ops, crec, mrec):
         elif sm == "ERR" and sc == "OK":
             diffs.append((k, "invalid-accepted", op))
         elif sm == "OK" and sc == "OK":
-            pc, pm = rec_payload(c), rec_payload(m)
+            pc, pm = rec_payload(c, op), rec_payload(m, op)
             if pc != pm:
                 if op.split()[2:3] == ["counts"] and pc[:2] == pm[:2]:
                     diffs.append((k, "nzcount", "library %s, model %s" % (pc[2], pm[2])))
